@@ -80,13 +80,25 @@ def fib_level_order(h):
 
 order, n = fib_level_order(11)   # 232 nodes, 11 levels: the worst shape a 255-slot tree can hold
 ops = ["init 255"] + [f"ins {k} {k % 97}" for k in order] + ["rlen", "rlow", "rget 1", "get 232", "rem 0", "rem 233", "has 117"]
+# an insertion below the deepest leaf (the search path then has as many entries as an AVL tree of <= 255 nodes allows), undone again
+ops += ["ins 0 7", "rlen", "rem 0", "rem 0"]
 # operations along the deepest path, removals that trigger cascades of rebalancing, refill
 ops += [f"rem {k}" for k in (order[0], 1, 2, 232, 231, order[1], order[2], 100, 50, 150, 200)] + [f"ins {k} 5" for k in (233, 234, 235, 236, 0)] + ["rlen", "full"]
-w("FIB8", "sparsest AVL tree of height 11 (232 nodes) in a 255-capacity 8-bit tree: deepest search paths, cascading rebalancing", ["C06", "C12", "C01", "C10"],
+w("FIB8", "sparsest AVL tree of height 11 (232 nodes) in a 255-capacity 8-bit tree: deepest search paths, cascading rebalancing", ["C06", "C12", "C01", "C10", "C07", "C09", "C04"],
   "tree type=T8u32u16 slots=255 cap=255 keys=" + ",".join(str(k) for k in range(0, 237)), ops)
 ops32 = [o.replace("init 255", "init 300") for o in ops]
-w("FIB32", "same shape in a 32-bit tree with instrumented keys (comparison logs along the deepest paths)", ["C06", "C12", "C01"],
+w("FIB32", "same shape in a 32-bit tree with instrumented keys (comparison logs along the deepest paths)", ["C06", "C12", "C01", "C07", "C09"],
   "tree type=T32logu8 slots=300 cap=300 keys=" + ",".join(str(k) for k in range(0, 237)), ops32)
+
+# a tree that is filled, drained completely, grown while empty and refilled (stale registers of recycled records
+# must not matter; the u8 tree's registers are compared as i8 heights)
+for nm, ty, n0, k in (("DRAIN8", "T8u32u16", 200, 20), ("DRAIN32", "T32u64u64", 260, 40)):
+    first = list(range(1, n0 + 1))
+    second = list(range(1001, 1001 + n0 + k))
+    w(nm, f"fill {n0}, remove everything, grow by {k} while empty, refill completely", ["C08", "C07", "C12", "C01", "C10"],
+      f"tree type={ty} slots={n0} cap={n0} max_slots={n0 + k} keys=" + ",".join(str(x) for x in first + second + [5000, 5001]),
+      [f"init {n0}"] + [f"ins {x} {x % 89}" for x in first] + ["rlen", "full"] + [f"rem {x}" for x in first] + ["rlen", "empty", f"ext {k}", "rcap", "open", "cap"]
+      + [f"ins {x} {x % 83}" for x in second] + ["rlen", "full", "ins 5000 1", "get 1001", f"rem {1000 + n0}", "ins 5001 2", "full"])
 
 # very large collections (oracle-only: the by-lookup layout of the model is quadratic), built with bulk operations
 w("BIG32", "32-bit tree with more than 65535 entries: counts, lookups, refill, drain", ["C01", "C07", "C10", "C12", "C06"],
